@@ -19,6 +19,7 @@ import Driver.TraceContent
 import Driver.TraceDisc
 import Driver.TraceKA
 import Driver.TraceRd
+import Driver.TraceDiscT
 /-! `mdrv`: the model behind a one-line-in / one-line-out protocol (DESIGN.md Appendix B).
 Imports Model/Spec/Gen only (no Mathlib, so it links as a native executable). -/
 open Mqtt5V
@@ -92,6 +93,7 @@ def pureStep (ws : List String) : String :=
   | "tracedisc" :: toks => Driver.TraceDisc.step toks
   | "traceka" :: toks => Driver.TraceKA.step toks
   | "tracerd" :: toks => Driver.TraceRd.step toks
+  | "tracedisct" :: toks => Driver.TraceDiscT.step toks
   | "enc" :: _ => Driver.Codec.step ws
   | "dupenc" :: _ => Driver.Codec.step ws
   | "varlen" :: _ => Driver.Codec.step ws
